@@ -36,6 +36,13 @@ pub enum Backend {
     /// `state_tree::build_state_storage_patch_plan(old, new)` and, when that returns `None`
     /// (identical skeletons), an empty plan (no whole-buffer identity patch like the CLI adds)
     WasmP4,
+    /// P1 through the real `mimium-cli` `FileRunner` (hook H5): file on disk, `recompile_file`,
+    /// the real async compile service thread, payload sent by the CLI code itself
+    VmCli,
+    /// P2 through the real `FileRunner::recompile_file` WASM branch (hook H5): compiler subprocess
+    /// (this binary re-executed as `mimium-cli <file> --backend=wasm --emit-wasm` via `lib_main`),
+    /// `prepare_hot_swap_wasm_payload(bytes, None, None)`, `update_old_program`
+    WasmCli,
 }
 impl Backend {
     pub fn name(&self) -> &'static str {
@@ -44,10 +51,16 @@ impl Backend {
             Backend::WasmP2 => "wasm_p2",
             Backend::WasmP3 => "wasm_p3",
             Backend::WasmP4 => "wasm_p4",
+            Backend::VmCli => "vm_cli",
+            Backend::WasmCli => "wasm_cli",
         }
     }
     pub fn is_wasm(&self) -> bool {
-        !matches!(self, Backend::Vm)
+        !matches!(self, Backend::Vm | Backend::VmCli)
+    }
+    /// the default CLI WASM path: no skeleton reaches the runtime (known finding for C07)
+    pub fn is_wasm_no_skeleton(&self) -> bool {
+        matches!(self, Backend::WasmP2 | Backend::WasmCli)
     }
 }
 
@@ -185,9 +198,44 @@ impl WasmGlue {
     }
 }
 
+static SIMFILE_COUNTER: AtomicU64 = AtomicU64::new(0);
+
+/// Scratch directory for the files the simulated editor saves (and HOME of the CLI subprocess).
+pub fn scratch_dir() -> PathBuf {
+    let exe = std::env::current_exe().unwrap_or_else(|_| PathBuf::from("/verif/sim/target/release/x"));
+    let dir = exe.parent().unwrap_or(std::path::Path::new("/verif/sim/target")).join("simfiles");
+    let _ = std::fs::create_dir_all(&dir);
+    dir
+}
+
+/// If this process was started the way `FileRunner::try_compile_wasm_in_subprocess` starts the
+/// compiler (`<exe> <file> --backend=wasm --emit-wasm`), behave as `mimium-cli`: run the real
+/// `lib_main` and exit. Called first thing by every simulator binary.
+pub fn maybe_act_as_cli_subprocess() {
+    let args: Vec<String> = std::env::args().collect();
+    if args.len() == 4 && args[2] == "--backend=wasm" && args[3] == "--emit-wasm" {
+        let code = match mimium_cli::lib_main() {
+            Ok(()) => 0,
+            Err(_) => 1,
+        };
+        std::process::exit(code);
+    }
+}
+
+/// Process-wide environment of the simulated CLI: HOME points into the scratch directory so the
+/// CLI's config file is created there, never in the real home.
+pub fn init_cli_env() {
+    let home = scratch_dir().join("home");
+    let _ = std::fs::create_dir_all(&home);
+    unsafe { std::env::set_var("HOME", &home) };
+}
+
 pub struct Sut {
     pub backend: Backend,
-    compiler: compiler::Context,
+    compiler: Option<compiler::Context>,
+    cli: Option<mimium_cli::verif_hooks::SimFileRunner>,
+    staging_rx: Option<mpsc::Receiver<ProgramPayload>>,
+    sim_file: Option<PathBuf>,
     pub rt: RuntimeData,
     /// The sample clock. The simulator is the only writer.
     pub count: Arc<AtomicU64>,
@@ -252,9 +300,102 @@ impl Sut {
                 // keep `driver` alive? its closures hold clones of `count`; the driver itself is not needed.
                 Ok(Sut {
                     backend,
-                    compiler,
+                    compiler: Some(compiler),
+                    cli: None,
+                    staging_rx: None,
+                    sim_file: None,
                     rt,
                     count,
+                    tx,
+                    rx,
+                    glue: None,
+                    retire_rx: None,
+                    io,
+                    swaps_applied: 0,
+                    retired_drained: 0,
+                    _ctx: ctx,
+                })
+            }
+            Backend::VmCli => {
+                // mirrors the native branch of `mimium_cli::run_file` up to `FileRunner::new`
+                let file = Self::new_sim_file(src)?;
+                let driver = LocalBufferDriver::new(0);
+                let count = driver.count.clone();
+                let mut ctx = mimium_cli::get_default_context(Some(file.clone()), false, false, Config::default());
+                ctx.add_plugin(driver.get_as_plugin());
+                ctx.prepare_machine(src).map_err(errs_to_string)?;
+                let _ = ctx.run_main();
+                let rt = RuntimeData::try_from(&mut ctx).map_err(|e| e.message)?;
+                let io = rt.io_channels().ok_or("no dsp / io channels")?;
+                let compiler = ctx.take_compiler().ok_or("no compiler")?;
+                let (stx, srx) = mpsc::channel::<ProgramPayload>();
+                let cli = mimium_cli::verif_hooks::SimFileRunner::new_vm(compiler, file.clone(), Some(stx));
+                Ok(Sut {
+                    backend,
+                    compiler: None,
+                    cli: Some(cli),
+                    staging_rx: Some(srx),
+                    sim_file: Some(file),
+                    rt,
+                    count,
+                    tx,
+                    rx,
+                    glue: None,
+                    retire_rx: None,
+                    io,
+                    swaps_applied: 0,
+                    retired_drained: 0,
+                    _ctx: ctx,
+                })
+            }
+            Backend::WasmCli => {
+                // mirrors the `_ if options.use_wasm` branch of `mimium_cli::run_file`
+                use mimium_lang::compiler::wasmgen::WasmGenerator;
+                let file = Self::new_sim_file(src)?;
+                let mut ctx = mimium_cli::get_default_context(Some(file.clone()), false, true, Config::default());
+                ctx.prepare_compiler();
+                let mut ext_fns = ctx.get_extfun_types();
+                ext_fns.sort_by(|a, b| a.name.as_str().cmp(b.name.as_str()));
+                ext_fns.dedup_by(|a, b| a.name == b.name);
+                let mir = ctx.get_compiler().unwrap().emit_mir(src).map_err(errs_to_string)?;
+                let io_channels = mir.get_dsp_iochannels();
+                let dsp_skeleton = mir.get_dsp_state_skeleton().cloned();
+                let mut generator = WasmGenerator::new(Arc::new(mir), &ext_fns);
+                let wasm_bytes = generator.generate()?;
+                let plugin_fns = ctx.freeze_wasm_plugin_fns();
+                let plugin_fns_for_hotswap = plugin_fns.clone();
+                let wasm_workers = ctx.generate_wasm_audioworkers();
+                let mut engine = WasmEngine::new(&ext_fns, plugin_fns)?;
+                engine.load_module(&wasm_bytes)?;
+                let mut wrt = WasmDspRuntime::new(engine, io_channels, dsp_skeleton.clone());
+                wrt.set_wasm_audioworkers(wasm_workers);
+                let (retire_tx, retire_rx) = mpsc::channel();
+                wrt.set_engine_retire_sender(retire_tx);
+                ctx.run_wasm_on_init(wrt.engine_mut());
+                let _ = wrt.run_main();
+                ctx.run_wasm_after_main(wrt.engine_mut());
+                let mut rt = RuntimeData::new_from_runtime(Box::new(wrt));
+                rt.runtime.set_sample_rate(opts.sample_rate as f64);
+                let io = rt.io_channels().ok_or("no dsp / io channels")?;
+                let compiler = ctx.take_compiler().ok_or("no compiler")?;
+                let (stx, srx) = mpsc::channel::<ProgramPayload>();
+                let cli = mimium_cli::verif_hooks::SimFileRunner::new_wasm(
+                    compiler,
+                    file.clone(),
+                    Some(stx),
+                    dsp_skeleton,
+                    ext_fns,
+                    plugin_fns_for_hotswap,
+                    Some(retire_rx),
+                );
+                Ok(Sut {
+                    backend,
+                    compiler: None,
+                    cli: Some(cli),
+                    staging_rx: Some(srx),
+                    sim_file: Some(file),
+                    rt,
+                    count: Arc::new(AtomicU64::new(0)),
                     tx,
                     rx,
                     glue: None,
@@ -312,7 +453,10 @@ impl Sut {
                 let compiler = ctx.take_compiler().ok_or("no compiler")?;
                 Ok(Sut {
                     backend,
-                    compiler,
+                    compiler: Some(compiler),
+                    cli: None,
+                    staging_rx: None,
+                    sim_file: None,
                     rt,
                     count: Arc::new(AtomicU64::new(0)),
                     tx,
@@ -335,18 +479,49 @@ impl Sut {
         }
     }
 
+    fn new_sim_file(src: &str) -> Result<PathBuf, String> {
+        let n = SIMFILE_COUNTER.fetch_add(1, Ordering::Relaxed);
+        let f = scratch_dir().join(format!("sim-{}-{}.mmm", std::process::id(), n));
+        std::fs::write(&f, src).map_err(|e| format!("HARNESS: cannot write {}: {e}", f.display()))?;
+        Ok(f)
+    }
+
     /// The non-RT half of a save: compile and prepare a payload (nothing is delivered yet).
     pub fn compile(&mut self, src: &str) -> Compiled {
         let backend = self.backend;
+        if let Some(cli) = &self.cli {
+            // the editor saves the file, the watcher reports it, the real CLI code does the rest;
+            // what it sends is held back by the simulator until the delivery time
+            let file = self.sim_file.clone().unwrap();
+            if let Err(e) = std::fs::write(&file, src) {
+                return Compiled::Failed(format!("HARNESS: cannot write file: {e}"));
+            }
+            let r = guarded(|| cli.on_file_event());
+            if let Err(p) = r {
+                return Compiled::Failed(format!("compiler panicked: {p}"));
+            }
+            let mut got = None;
+            while let Ok(p) = self.staging_rx.as_ref().unwrap().try_recv() {
+                if got.is_some() {
+                    return Compiled::Failed("HARNESS: more than one payload for one save".into());
+                }
+                got = Some(p);
+            }
+            return match got {
+                Some(p) => Compiled::Payload(p),
+                None => Compiled::Failed("no payload was sent for this save".into()),
+            };
+        }
         let r = guarded(|| match backend {
-            Backend::Vm => match self.compiler.emit_bytecode(src) {
+            Backend::VmCli | Backend::WasmCli => unreachable!(),
+            Backend::Vm => match self.compiler.as_ref().unwrap().emit_bytecode(src) {
                 Ok(prog) => Compiled::Payload(ProgramPayload::VmProgram(prog)),
                 Err(e) => Compiled::Failed(errs_to_string(e)),
             },
             Backend::WasmP2 => {
                 // "subprocess": same compile routine as `RunMode::EmitWasm` (emit_mir + WasmGenerator),
                 // only the bytes come back.
-                match self.compiler.emit_wasm(src) {
+                match self.compiler.as_ref().unwrap().emit_wasm(src) {
                     Ok(out) => {
                         if out.bytes.is_empty() {
                             return Compiled::Failed("empty wasm".into());
@@ -364,7 +539,7 @@ impl Sut {
                     Err(e) => Compiled::Failed(errs_to_string(e)),
                 }
             }
-            Backend::WasmP3 | Backend::WasmP4 => match self.compiler.emit_wasm(src) {
+            Backend::WasmP3 | Backend::WasmP4 => match self.compiler.as_ref().unwrap().emit_wasm(src) {
                 Ok(out) => {
                     match self.glue.as_mut().unwrap().prepare_hot_swap_wasm_payload(
                         out.bytes,
@@ -427,6 +602,9 @@ impl Sut {
 
     /// The non-RT thread's periodic drain of retired engines.
     pub fn drain_retired(&mut self) {
+        if let Some(cli) = &self.cli {
+            cli.on_idle();
+        }
         if let Some(rx) = &self.retire_rx {
             while let Ok(_e) = rx.try_recv() {
                 self.retired_drained += 1;
@@ -434,7 +612,20 @@ impl Sut {
         }
     }
 
+    /// remove the simulated editor's file
+    pub fn cleanup(&mut self) {
+        if let Some(f) = self.sim_file.take() {
+            let _ = std::fs::remove_file(f);
+        }
+    }
+
     pub fn vm(&self) -> Option<&VmDspRuntime> {
         self.rt.downcast_runtime_ref::<VmDspRuntime>()
+    }
+}
+
+impl Drop for Sut {
+    fn drop(&mut self) {
+        self.cleanup();
     }
 }
